@@ -3247,6 +3247,18 @@ class StateRetainer:
 
     def __exit__(self, *args):
         self._enterExitHelper(lambda obj: obj.restoreBackup(self.paramsToApply))
+        # the scope of a single component ends at that component: what its neighbours derived from
+        # it while the scope was open (linked dimensions, a derived shape) has to be computed again
+        comp = self.composite
+        if (
+            hasattr(comp, "getLinkedComponents")
+            and comp.parent is not None
+            and not comp.p.readOnly
+        ):
+            comp.parent.cached = {}
+            comp.parent.derivedMustUpdate = True
+            for linked in comp.getLinkedComponents():
+                linked.p.volume = None
 
     def _enterExitHelper(self, func):
         """Helper method for ``__enter__`` and ``__exit__``. ``func`` is a lambda to either
